@@ -67,10 +67,15 @@ func propC09(r *kernel.Run) {
 		r.Count("probe.discarded_no_positive_node_bound", 1)
 		return
 	}
+	if tp.Draw(2) == 0 {
+		// the server also accepts the registration-wrapper flow
+		w.RW = newAead(r, "registration")
+	}
 	opts := w.Opts(cfg.opts()...)
 	nNodes := tp.Range(1, 3)
 	type cnode struct {
 		name   string
+		id     *Ident
 		creds  *types.NodeCredentials
 		gen    int
 		nextAt time.Time
@@ -115,9 +120,27 @@ func propC09(r *kernel.Run) {
 	enrollNode := func(n *cnode) {
 		id := NewIdent(fmt.Sprintf("%s-g%d", n.name, n.gen))
 		viaRotate := n.creds != nil && tp.Draw(2) == 0
+		// registration-wrapper flow: authorization happens at fetch time, so a node may also simply fetch again with the
+		// key it already has (where the back end can overwrite a record at all - the store-once test back end cannot)
+		viaWrapper := !viaRotate && w.RW != nil && tp.Draw(2) == 0
+		if viaWrapper && n.id != nil && backend != "storeonce" && tp.Draw(2) == 0 {
+			id = n.id
+			r.Count("ops.refetch_same_key_wrapper_flow", 1)
+		}
 		var resp *types.FetchNodeCredentialsResponse
-		req, _ := BuildFetch(HonestSpec(id))
-		if viaRotate {
+		sp := HonestSpec(id)
+		if viaWrapper {
+			sp.Wrapped = WrapRegInfo(r, w.RW, id.Nonce, id.Pkix, nil)
+		}
+		req, _ := BuildFetch(sp)
+		if viaWrapper {
+			var err error
+			resp, err = registration.FetchNodeCredentials(w.Ctx, w.Storage, req, opts...)
+			if err != nil || len(resp.EncryptedNodeCredentials) == 0 {
+				r.Violate("reenroll", "fetch-failed", "wrapper-flow fetch: %v", err)
+			}
+			r.Count("ops.enroll_wrapper_flow", 1)
+		} else if viaRotate {
 			payload, err := nodeenrollment.EncryptMessage(w.Ctx, req, n.creds)
 			if err != nil {
 				r.HarnessErr("encrypt: %v", err)
@@ -147,6 +170,7 @@ func propC09(r *kernel.Run) {
 			r.Violate("reenroll", "handle-failed", "%v", err)
 		}
 		n.creds = creds
+		n.id = id
 		n.gen++
 	}
 	var realDial func(n *cnode, at string)
